@@ -93,7 +93,8 @@ def layout(stim: dict) -> dict:
     flat : no main loop at all (README style); declarations then uses, straight line (only place=pre).
     nest-if/for/while/try : place=nested devices are declared and used inside that compound statement, which
            stands before the main loop; the rest as in `loop`.
-    alt=1: the top-level declarations appear in reverse order and the constructor spellings are swapped."""
+    alt=1: the top-level declarations appear in reverse order and the constructor spellings are swapped.
+    alt=2: every device before the loop is bound to the same identifier (shapes loop / flat)."""
     shape, alt = stim["shape"], int(stim.get("alt", 0))
     seen: dict = {}
     pre, inloop, nested = [], [], []          # entries: (decl dict, declaration, use)
@@ -103,15 +104,37 @@ def layout(stim: dict) -> dict:
         seen[k] = i + 1
         _n, decl, use = _decl(k, i, alt)
         {"pre": pre, "loop": inloop, "nested": nested}[d["place"]].append((d, decl, use))
-    if alt:
+    if alt == 2:
+        # ONE identifier for every device that stands before the loop: each declaration re-binds `unit`, the device is used right
+        # after it is bound; the loop works with the last one.  Every device was declared: every one needs its library.
+        def ren(x, n):
+            return re.sub(rf"\b{n}\b", "unit", x)
+        names = [_decl(d["kind"], sum(1 for q in stim["decls"][:j] if q["kind"] == d["kind"]), 0)[0] for j, d in enumerate(stim["decls"])]
+        byd = {id(d): n for d, n in zip(stim["decls"], names)}
+        # (the identifier is shared by the first Servo and the first LCD only: two devices of ONE class under one name is a
+        #  different matter - the pinned tree keys its per-device state by name and class)
+        share, got = set(), set()
+        for d, _dc, _us in pre:
+            cls = "servo" if d["kind"] == "servo" else ("lcd" if d["kind"] in ("lcdp", "lcdi") else None)
+            if cls and cls not in got:
+                got.add(cls)
+                share.add(id(d))
+        shared = [x for x in pre if id(x[0]) in share]
+        last_shared = id(shared[-1][0]) if shared else None
+        pre = [((d, ren(dc, byd[id(d)]) + "\n" + ren(us, byd[id(d)]), ren(us, byd[id(d)]) if id(d) == last_shared else None) if id(d) in share else (d, dc, us))
+               for d, dc, us in pre]
+        pre_uses_only_last = False
+    else:
+        pre_uses_only_last = False
+    if alt == 1:
         pre.reverse()
     if nested and shape not in NEST_SHAPES:
         raise ValueError("nested placement needs a nest-* shape")
     if shape == "flat" and inloop:
         raise ValueError("flat scripts have no loop placement")
-    lines = list(HEADER) + [x[1] for x in pre]
+    lines = list(HEADER) + [ln for x in pre for ln in x[1].split("\n")]
     order = [x[0] for x in pre]
-    uses = [x[2] for x in pre]
+    uses = [x[2] for x in pre if x[2] is not None]
     if nested:
         body = [s for x in nested for s in (x[1], x[2])]
         if shape == "nest-if":
@@ -384,6 +407,10 @@ def observe(src: str) -> dict:
         from .pio_rec import read_ini
         d = tempfile.mkdtemp(prefix="c14proj-", dir=str(scratch()))
         try:
+            # the project directory is not new: an earlier version of the script (same port, board and platform) needed other
+            # libraries - what the configuration requests afterwards is what THIS version needs
+            earlier = ["Servo", "LiquidCrystal_I2C"] if sorted(map(str, libs)) != ["LiquidCrystal_I2C", "Servo"] else ["LiquidCrystal"]
+            pio.write_project(Path(d) / "p", "// earlier version\n", "COM3", lib_deps=earlier)
             pio.write_project(Path(d) / "p", cpp, "COM3", lib_deps=list(libs))
             ini = read_ini(Path(d) / "p" / "platformio.ini")
             out["libs"] = [str(x) for x in ini.get("libs", [])]
